@@ -5470,7 +5470,11 @@ class Symbol:
             or (
                 # A choice symbol is at its default exactly when the user has not selected anything in the choice;
                 # an n assigned to the selected member does not touch the choice (see present_in_current_sdkconfig).
-                (self._user_value is None or self._has_active_indirect_set or self.choice is not None)
+                (
+                    self._user_value is None
+                    or self._has_active_indirect_set
+                    or (self.choice is not None and self.orig_type == BOOL)
+                )
                 and self.orig_type
                 and ((not self.choice) or self.choice._user_selection is None)
             )
